@@ -69,7 +69,35 @@ func C08(c *core.Ctx) {
 					return false
 				}
 				r, path := core.FieldPath(info, srcs[0])
-				return r == recv && recv != nil && path == "Head.Digest"
+				if r == recv && recv != nil && path == "Head.Digest" {
+					return true
+				}
+				// a parameter: every caller (a method of the same receiver type, calling on its own
+				// receiver) hands in its receiver's Head.Digest
+				pv := core.VarOf(info, srcs[0])
+				pi, isParam := -2, false
+				if pv != nil {
+					pi, isParam = paramIndex(fd.Obj, pv)
+				}
+				if !isParam || pi < 0 || len(ld.All(pv)) > 0 {
+					return false
+				}
+				n := 0
+				for _, cfd := range p.Funcs(root) {
+					cinfo := cfd.Pkg.TypesInfo
+					crecv := recvVar(cfd)
+					for _, cc := range core.CallsTo(cinfo, cfd.Decl.Body, func(f *types.Func) bool { return f == fd.Obj }) {
+						n++
+						if pi >= len(cc.Args) || crecv == nil || core.VarOf(cinfo, core.RecvExpr(cc)) != crecv {
+							return false
+						}
+						cr, cpath := core.FieldPath(cinfo, cc.Args[pi])
+						if cr != crecv || cpath != "Head.Digest" {
+							return false
+						}
+					}
+				}
+				return n > 0
 			}
 			// every value the operand can hold (nil aside) is a digest computed here and now: the
 			// envelope's digest method on this receiver, or dsig.NewSHA256Digest itself (what it
